@@ -49,6 +49,7 @@ type faultReader struct {
 	cancel   context.CancelFunc
 	read     int
 	errv     error
+	failed   bool // mode 2: the one-off failure has been delivered
 	returned bool // the call under test has returned
 	late     int  // bytes delivered after that
 }
@@ -63,11 +64,16 @@ func (r *faultReader) Read(p []byte) (int, error) {
 		return 0, nil
 	}
 	limit := len(r.doc)
-	if r.failAt >= 0 && r.failAt < limit {
+	if r.failAt >= 0 && r.failAt < limit && !(r.mode == 2 && r.failed) {
 		limit = r.failAt
 	}
+	if r.mode == 2 && r.failAt >= 0 && r.failAt <= len(r.doc) && !r.failed && r.pos >= r.failAt {
+		// a transient failure: reported once, afterwards the reader works again (like iotest.TimeoutReader)
+		r.failed = true
+		return 0, r.errv
+	}
 	if r.pos >= limit {
-		if r.failAt >= 0 && r.failAt <= len(r.doc) {
+		if r.failAt >= 0 && r.failAt <= len(r.doc) && r.mode != 2 {
 			return 0, r.errv
 		}
 		return 0, io.EOF
